@@ -12,6 +12,8 @@ import (
 	"fmt"
 	"hash/fnv"
 	"math/rand"
+	"os"
+	"runtime"
 	"sort"
 	"strings"
 	"sync"
@@ -285,6 +287,10 @@ func (s *Sim) Fail(tag, key, format string, a ...any) bool {
 	}
 	if s.Viol == nil {
 		s.Viol = &v
+		if os.Getenv("VERIF_STACKS") != "" {
+			buf := make([]byte, 1<<20)
+			fmt.Fprintf(os.Stderr, "=== violation %s: %s\n%s\n", tag, msg, buf[:runtime.Stack(buf, true)])
+		}
 	}
 	root := s.rootActive
 	s.mu.Unlock()
